@@ -39,6 +39,11 @@ pub enum Amf0SerializationError {
     #[error("String length greater than 65,535")]
     NormalStringTooLong,
 
+    /// Object property names must not be empty, as an empty name marks the end of an object
+    /// and the value could not be read back.
+    #[error("Object property names can not be empty")]
+    EmptyObjectPropertyName,
+
     /// An I/O error occurred while writing to the output buffer.
     #[error("Failed to write to byte buffer")]
     BufferWriteError(#[from] io::Error),
